@@ -65,6 +65,7 @@ type crashCase struct {
 type Agg struct {
 	Runs          int
 	RaceRuns      int
+	InstrRuns     int
 	Events        int64
 	Stats         map[string]int64
 	Sigs          map[uint64]bool
@@ -163,8 +164,8 @@ func Orchestrate(a OrchArgs) int {
 	if err := writeEvidence(a, info, agg, len(confirmed), wall); err != nil {
 		trouble = append(trouble, "evidence: "+err.Error())
 	}
-	fmt.Printf("%s %s: %d runs (%d in the race build), %d distinct non-trivial cases, %d logical events, %.1fs wall\n",
-		a.Prop, a.Tier, agg.Runs, agg.RaceRuns, len(agg.Sigs), agg.Events, wall)
+	fmt.Printf("%s %s: %d runs (%d in the race build, %d in the instrumented build), %d distinct non-trivial cases, %d logical events, %.1fs wall\n",
+		a.Prop, a.Tier, agg.Runs, agg.RaceRuns, agg.InstrRuns, len(agg.Sigs), agg.Events, wall)
 	for _, l := range confirmed {
 		fmt.Println(l)
 	}
@@ -312,6 +313,9 @@ func runPhase(a OrchArgs, info *props.Info, seed uint64, budget time.Duration, a
 			agg.Runs += s.Runs
 			if w.race {
 				agg.RaceRuns += s.Runs
+			}
+			if w.instr {
+				agg.InstrRuns += s.Runs
 			}
 			agg.Events += s.Events
 			agg.WorkerSeconds += s.Seconds
